@@ -9,6 +9,9 @@ import (
 	"time"
 
 	"github.com/jcmturner/gokrb5/v8/keytab"
+	"github.com/jcmturner/gokrb5/v8/credentials"
+	"github.com/jcmturner/gokrb5/v8/messages"
+	"github.com/jcmturner/gokrb5/v8/pac"
 	"github.com/jcmturner/gokrb5/v8/service"
 	"github.com/jcmturner/gokrb5/v8/types"
 )
@@ -77,6 +80,14 @@ func runAPCase(t *testing.T, m *Model, rng *RNG, c apCase, replay bool) (goRes s
 			var res string
 			p := Protect(func() {
 				a2 := ap // VerifyAPREQ mutates the request (decrypted parts)
+				if c.clearAppended {
+					// what arrives is bytes: the request as the decoder delivers it
+					a2 = messages.APReq{}
+					if e := a2.Unmarshal(b); e != nil {
+						err = e
+						return
+					}
+				}
 				var cr interface {
 					CName() types.PrincipalName
 					Domain() string
@@ -91,6 +102,11 @@ func runAPCase(t *testing.T, m *Model, rng *RNG, c apCase, replay bool) (goRes s
 						cs[i] = XS(x)
 					}
 					res = fmt.Sprintf("ok %s %s %d", List(cs), XS(cr.Domain()), Micros(cr.ValidUntil()))
+					if strings.HasPrefix(c.pac, "valid") && c.decodePAC && len(lastMintedPAC) > 0 {
+						if d := adCredentialsDiffer(creds.GetADCredentials(), lastMintedPAC); d != "" {
+							res = "ok-but-ad-credentials-differ " + d
+						}
+					}
 				}
 			})
 			if p != "" {
@@ -165,6 +181,7 @@ type defect struct {
 func c01Defects() []defect {
 	v4 := types.HostAddress{AddrType: 2, Address: []byte{10, 0, 0, 1}}
 	v4b := types.HostAddress{AddrType: 2, Address: []byte{10, 0, 0, 2}}
+	nb := types.HostAddress{AddrType: 20, Address: []byte("WORKSTATION     ")}
 	v6 := types.HostAddress{AddrType: 24, Address: []byte{0x20, 1, 0xd, 0xb8, 0, 0, 0, 0, 0, 0, 0, 0, 0, 0, 0, 1}}
 	return []defect{
 		{"wrongkey", func(c *apCase, r *RNG) { c.wrongKey = true }},
@@ -188,6 +205,16 @@ func c01Defects() []defect {
 		{"sname-krbtgt", func(c *apCase, r *RNG) { c.sname = []string{"krbtgt", "TEST.GOKRB5"} }},
 		{"invalid", func(c *apCase, r *RNG) { c.invalid = true }},
 		{"nostart", func(c *apCase, r *RNG) { c.noStart = true }},
+		// the ticket's encrypted part under a key the service does not have, and the same EncTicketPart (session
+		// key included) appended in the clear: nothing in the clear may stand in for what the key must open
+		{"wrongkey+cleartext-appended", func(c *apCase, r *RNG) { c.wrongKey = true; c.clearAppended = true }},
+		{"fliptkt+cleartext-appended", func(c *apCase, r *RNG) { c.flipTkt = r.Intn(4000); c.clearAppended = true }},
+		// a renewable ticket is valid until its end time like any other (renew-till only limits what the KDC renews)
+		{"renewable", func(c *apCase, r *RNG) { c.renewable = true }},
+		{"renewable+end=now-d-1s", func(c *apCase, r *RNG) { c.renewable = true; c.endOff = -c.skew - time.Second }},
+		{"renewable+end=now-1h", func(c *apCase, r *RNG) { c.renewable = true; c.endOff = -time.Hour }},
+		// a client of another realm: the identity reported is the client's realm, not the service's
+		{"crealm-partner", func(c *apCase, r *RNG) { c.crealm = "PARTNER.EXAMPLE" }},
 		{"start=now+d", func(c *apCase, r *RNG) { c.startOff = c.skew }},
 		{"start=now+d+1s", func(c *apCase, r *RNG) { c.startOff = c.skew + time.Second }},
 		{"end=now-d", func(c *apCase, r *RNG) { c.endOff = -c.skew }},
@@ -226,10 +253,18 @@ func c01Defects() []defect {
 		{"caddr-v6v6v4+clientaddr-v4", func(c *apCase, r *RNG) { c.caddr = []types.HostAddress{v6, v6, v4}; c.clientAddr = &v4 }},
 		{"caddr-v4v6+clientaddr-v6", func(c *apCase, r *RNG) { c.caddr = []types.HostAddress{v4, v6}; c.clientAddr = &v6 }},
 		{"caddr-v4bv6+clientaddr-v4", func(c *apCase, r *RNG) { c.caddr = []types.HostAddress{v4b, v6}; c.clientAddr = &v4 }},
+		// NetBIOS entries (address type 20) are entries like any other: they match only themselves
+		{"caddr-v4b+netbios", func(c *apCase, r *RNG) { c.caddr = []types.HostAddress{v4b, nb}; c.clientAddr = &v4 }},
+		{"caddr-netbios+v4b", func(c *apCase, r *RNG) { c.caddr = []types.HostAddress{nb, v4b}; c.clientAddr = &v4 }},
+		{"caddr-netbios-only", func(c *apCase, r *RNG) { c.caddr = []types.HostAddress{nb}; c.clientAddr = &v4 }},
+		{"caddr-netbios+v4", func(c *apCase, r *RNG) { c.caddr = []types.HostAddress{nb, v4}; c.clientAddr = &v4 }},
 		{"cname-empty", func(c *apCase, r *RNG) { c.cname = []string{}; c.aCname = nil }},
 		{"pac-valid", func(c *apCase, r *RNG) { c.pac = "valid" }},
 		{"pac-badsig", func(c *apCase, r *RNG) { c.pac = "badsig" }},
 		{"pac-malformed", func(c *apCase, r *RNG) { c.pac = "malformed" }},
+		{"pac-valid-second", func(c *apCase, r *RNG) { c.pac = "valid-second" }},
+		{"pac-badsig-second", func(c *apCase, r *RNG) { c.pac = "badsig-second" }},
+		{"pac-malformed-second", func(c *apCase, r *RNG) { c.pac = "malformed-second" }},
 		// settings
 		{"skew=1s", func(c *apCase, r *RNG) { c.skew = time.Second }},
 		{"skew=1h", func(c *apCase, r *RNG) { c.skew = time.Hour }},
@@ -303,4 +338,37 @@ func TestC01(t *testing.T) {
 	}
 	v.ModelAsks = m.N
 	v.Write(t)
+}
+
+// adCredentialsDiffer compares what the service reports from a verified PAC with the logon information
+// (KERB_VALIDATION_INFO, buffer type 1) the PAC holds.
+func adCredentialsDiffer(got credentials.ADCredentials, pacBytes []byte) string {
+	var k pac.KerbValidationInfo
+	found := false
+	for _, bf := range splitPAC(pacBytes) {
+		if bf.ty == 1 {
+			if err := k.Unmarshal(bf.data); err != nil {
+				return ""
+			}
+			found = true
+		}
+	}
+	if !found {
+		return ""
+	}
+	var d []string
+	chk := func(what, g, w string) {
+		if g != w {
+			d = append(d, fmt.Sprintf("%s=%q(logon-info:%q)", what, g, w))
+		}
+	}
+	chk("EffectiveName", got.EffectiveName, k.EffectiveName.Value)
+	chk("FullName", got.FullName, k.FullName.Value)
+	chk("UserID", fmt.Sprint(got.UserID), fmt.Sprint(k.UserID))
+	chk("PrimaryGroupID", fmt.Sprint(got.PrimaryGroupID), fmt.Sprint(k.PrimaryGroupID))
+	chk("LogonServer", got.LogonServer, k.LogonServer.Value)
+	chk("LogonDomainName", got.LogonDomainName, k.LogonDomainName.Value)
+	chk("LogonDomainID", got.LogonDomainID, k.LogonDomainID.String())
+	chk("GroupMembershipSIDs", fmt.Sprint(got.GroupMembershipSIDs), fmt.Sprint(k.GetGroupMembershipSIDs()))
+	return strings.Join(d, ",")
 }
